@@ -2,23 +2,23 @@
 # usage: confirm_mutant.sh <ID> <variant> [patchfile]   -- confirms a seeded change in a scratch worktree of /repo HEAD
 # Writes /tmp/confirm/<ID>-<variant>.json
 set -u
-id="$1"; var="$2"; src=/tmp/mut/$id.out/$var; patch="${3:-$src/patch.diff}"
-wt=/tmp/confirm/wt-$id-$var; out=/tmp/confirm/$id-$var.json
+id="$1"; var="$2"; base="${MUTBASE:-/tmp/mut}"; tag="${MUTTAG:-}"; src=$base/$id.out/$var; patch="${3:-$src/patch.diff}"
+wt=/tmp/confirm/wt-$id-$var$tag; out=/tmp/confirm/$id-$var$tag.json
 mkdir -p /tmp/confirm; rm -rf "$wt"
 git -C /repo worktree add --detach "$wt" HEAD -q || exit 2
 cd "$wt" || exit 2
 build() { cmake -G Ninja -S . -B _build -DCMAKE_BUILD_TYPE=RelWithDebInfo -DCMAKE_C_FLAGS=-Wno-error -DOVNI_GIT_COMMIT=x -Wno-dev >/dev/null 2>&1 && cmake --build _build >/dev/null 2>&1; }
 applies=1; git apply "$patch" 2>/dev/null || applies=0
-[ $applies = 1 ] && git diff > /tmp/confirm/$id-$var.patch
+[ $applies = 1 ] && git diff > /tmp/confirm/$id-$var$tag.patch
 suite="n/a"; demo_with="n/a"; demo_without="n/a"
 if [ $applies = 1 ]; then
   if build; then
     suite=$(ctest --test-dir _build -j4 --timeout 900 2>&1 | grep -E "tests passed" | head -1)
-    ( cd "$src" && timeout 600 bash ./demo.sh "$wt" >/tmp/confirm/$id-$var.with.log 2>&1 ); demo_with=$?
+    ( cd "$src" && timeout 600 bash ./demo.sh "$wt" >/tmp/confirm/$id-$var$tag.with.log 2>&1 ); demo_with=$?
   else suite="BUILD FAILED"; fi
   git checkout -- . ; git clean -fdq -e _build
   build
-  ( cd "$src" && timeout 600 bash ./demo.sh "$wt" >/tmp/confirm/$id-$var.without.log 2>&1 ); demo_without=$?
+  ( cd "$src" && timeout 600 bash ./demo.sh "$wt" >/tmp/confirm/$id-$var$tag.without.log 2>&1 ); demo_without=$?
 fi
 printf '{"id":"%s","variant":"%s","applies":%s,"suite":"%s","demo_exit_with_patch":"%s","demo_exit_without_patch":"%s","head":"%s"}\n' "$id" "$var" "$applies" "$suite" "$demo_with" "$demo_without" "$(git -C /repo log --format=%h -1)" > "$out"
 cd /; git -C /repo worktree remove --force "$wt"
